@@ -7,6 +7,7 @@ import (
 	"fmt"
 	"os"
 	"os/exec"
+	"sort"
 	"strings"
 	"time"
 
@@ -120,9 +121,14 @@ func (c *c15) Execute(env *kernel.Env, raw json.RawMessage, ch *kernel.Choices) 
 			finished = true
 			var st map[string]struct{ Calls, Distinct int }
 			json.Unmarshal([]byte(strings.TrimPrefix(line, "DONE ")), &st)
-			for f, s := range st {
+			var fnames []string
+			for f := range st {
+				fnames = append(fnames, f)
+			}
+			sort.Strings(fnames)
+			for _, f := range fnames {
 				out.Keys = append(out.Keys, fmt.Sprintf("%s/%s/%d", p.Prog, f, p.Seed0))
-				out.ProbeN("distinct_values", int64(s.Distinct))
+				out.ProbeN("distinct_values", int64(st[f].Distinct))
 			}
 			out.Sample = map[string]any{"program": p.Prog, "seed0": p.Seed0, "k": p.K, "functions": len(st)}
 		}
